@@ -134,9 +134,16 @@ class InProcRunner:
     def __init__(self, recorder=None):
         self.n = 0
         self.recorder = recorder
+        self._handed = []          # every unit object handed in (kept alive: identities stay unique)
+        self.aliased = []          # ordinals of units that were the same object as an earlier unit
 
     def submit_work(self, md_items):
         from infretis.core.tis import run_md
+        # the real runner keeps a REFERENCE to the unit in its queue until a worker takes it: handing in the
+        # same (later modified) object twice makes the queued units alias each other
+        if any(md_items is x for x in self._handed):
+            self.aliased.append(self.n)
+        self._handed.append(md_items)
         blob = pickle.dumps(md_items)
         md = pickle.loads(blob)
         if self.recorder is not None:
@@ -265,7 +272,7 @@ def run_sim(wd, inp="infretis.toml", schedule=None, stop_after=None, recorder=No
         finally:
             sched.setup_runner = orig
         st = holder.get("state")
-        return {"status": status, "completed": list(futs.order), "submitted": runner.n,
+        return {"status": status, "completed": list(futs.order), "submitted": runner.n, "aliased_units": list(runner.aliased),
                 "in_flight": [f.ordinal for f in futs.pending],
                 "cstep": st.cstep if st is not None else None, "state": st}
     finally:
